@@ -59,7 +59,7 @@ Theorem C02_boundary_arrow_static : forall A B, first_order A = true -> first_or
     (forall x, member A x = false -> w x = Err (Blame Neg)) /\
     (forall x, member A x = true ->
        exists x', dv_equiv x' x /\ member A x' = true /\ w x = g x').
-Proof. exact boundary_arrow_static. Qed.
+Proof. exact (fun A B HA HB WA _ g NB => boundary_arrow_static A B HA HB WA g NB). Qed.
 
 (* second sentence of the property, first-order arrows: for an implementation that respects its
    type the static contract is observationally the full contract *)
